@@ -44,6 +44,52 @@ pub fn check_sequence(o: &mut Out, name: &str, bytes: &[u8], reference: &[(Strin
     tr
 }
 
+/// the trace in the vocabulary of the Coq Reader model (frame indices instead of frame-control values)
+pub fn abstract_trace(b: &Built, tr: &Trace) -> String {
+    let idx = |fc: &str| -> i64 {
+        b.frames.iter().position(|f| match f.fctl { Some(t) => format!("{}:{}:{}:{}:{}:{}:{}:{}:{}", t.0, t.1, t.2, t.3, t.4, t.5, t.6, t.7, t.8) == fc, None => fc == "none" }).map(|k| k as i64).unwrap_or(-1)
+    };
+    let mut v = vec![];
+    for r in tr.results.iter().skip(2) {
+        let (op, rest) = r.split_once(' ').unwrap_or((r, ""));
+        if op == "G" || op.starts_with('+') {
+            continue;
+        }
+        let fc = rest.split("fctl=").nth(1).unwrap_or("").trim();
+        v.push(if rest.starts_with("ok") && op == "F" {
+            format!("F{}", idx(fc))
+        } else if rest.starts_with("ok") && op == "N" {
+            format!("N{}", idx(rest[3..].trim()))
+        } else if rest == "ok" {
+            "X".to_string()
+        } else if rest.starts_with("some") {
+            let j = rest.split("idx=").nth(1).and_then(|x| x.split(' ').next()).unwrap_or("?");
+            format!("r{}.{}", idx(fc), j)
+        } else if rest == "none" {
+            "none".to_string()
+        } else if rest.starts_with("err:Param:PolledAfterEndOfImage") {
+            "E".to_string()
+        } else if rest.starts_with("err:Io:UnexpectedEof") {
+            "eof".to_string()
+        } else if rest.starts_with("err:Format:MissingImageData") {
+            "missing".to_string()
+        } else {
+            rest.split(' ').next().unwrap_or("").to_string()
+        });
+    }
+    v.join(" ")
+}
+
+pub fn model_case(o: &mut Out, b: &Built, ops: &[Op], tr: &Trace) {
+    let rows: Vec<String> = b.frames.iter().map(|f| if b.spec.interlaced { crate::refimpl::adam7_rows_ref(f.w, f.h).len() } else { f.h as usize }.to_string()).collect();
+    let declared = if b.animated { b.frames.len() } else { 1 };
+    let letters: String = ops.iter().filter(|o| !matches!(o, Op::Getters | Op::Grow(_))).map(|o| match o { Op::Frame => 'F', Op::FrameInfo => 'N', Op::Finish => 'X', _ => 'R' }).collect();
+    if letters.is_empty() {
+        return;
+    }
+    o.case(&format!("reader {} {} {} {}", rows.join(","), declared, b.frames[0].fctl.is_some() as u8, letters), &abstract_trace(b, tr), &format!("{}-{}", rows.join(","), letters.len()), true);
+}
+
 pub fn test_files(rng: &mut Rng, n: usize) -> Vec<Built> {
     let mut v = vec![];
     let mut k = 0;
@@ -75,7 +121,10 @@ pub fn run(a: &Args) {
         for len in 1..=exhaustive_len {
             for code in 0..7u64.pow(len as u32) {
                 let ops = nth_sequence(code, len);
-                check_sequence(&mut o, &b.name, &b.bytes, &reference, &ops, 0, 0xA5);
+                let tr = check_sequence(&mut o, &b.name, &b.bytes, &reference, &ops, 0, 0xA5);
+                if code % 5 == 0 || len <= 3 {
+                    model_case(&mut o, b, &ops, &tr);
+                }
             }
         }
         o.distinct(&format!("{}-{}-{}", b.animated, b.spec.interlaced, b.frames.len()));
@@ -84,6 +133,7 @@ pub fn run(a: &Args) {
             let ops = random_ops(&mut rng, len);
             let fill = *rng.pick(&[0u8, 0xFF, 0x3C]);
             let tr = check_sequence(&mut o, &b.name, &b.bytes, &reference, &ops, 0, fill);
+            model_case(&mut o, b, &ops, &tr);
             o.distinct(&format!("{}-{}", b.name.len() % 5, tr.delivered.len()));
         }
         // with transformations (non-interlaced: rows can be placed without bit arithmetic on the output type)
